@@ -19,7 +19,7 @@ SPECIAL_FLOAT_RE = re.compile(r"[-+]?(?:nan|inf|infinity)\Z", re.I)
 LENIENT_NUM_RE = re.compile(r"[\s]*[-+]?[\d_]*\.?[\d_]*(?:[eE][-+]?[\d_]+)?[\s]*\Z", re.U)
 LENIENT_SPECIAL_RE = re.compile(r"[\s]*[-+]?(?:nan|inf|infinity)[\s]*\Z", re.I | re.U)
 
-TIME_RE = re.compile(r"(\d\d):(\d\d)(?::(\d\d)(?:\.(\d{3}|\d{6}))?)?(?:([-+])(\d\d):(\d\d))?\Z", re.A)
+TIME_RE = re.compile(r"(\d\d):(\d\d)(?::(\d\d)(?:\.(\d{3}|\d{6}))?)?(?:([-+])(\d\d):(\d\d)|Z)?\Z", re.A)
 TIME_SHAPE_RE = re.compile(r"(\d\d):(\d\d)(?::(\d\d)(?:[.,:](\d+))?)?(Z|[-+]\d\d(?::?\d\d(?::?\d\d(?:[.,]\d+)?)?)?)?\Z", re.A)
 DATE_RE = re.compile(r"(\d{4})-(\d\d)-(\d\d)\Z", re.A)
 YEAR_RE = re.compile(r"(\d{4})\Z", re.A)
@@ -312,7 +312,7 @@ def _next_down(x):
 
 COMMON = [None, "", " ", "\t", "\xa0", "\n", "abc", "some text", "12abc", "abc12", "0", "-0", "+0", "1", "-1", "12", "007",
           "1.5", "-1.5", "1.", ".5", "1e3", "1E3", "1e-3", "1.2.3", "1,5", "--1", "+-1", "1e", "e5", "1e5.5", "0x10", "1_0",
-          " 12", "12 ", "１２", "١٢", "nan", "NaN", "-nan", "inf", "-inf", "+inf", "Infinity", "-Infinity", " nan", "inf ",
+          " 12", "12 ", "１２", "١٢", "²", "①", "4₂", "½", "Ⅻ", "一二", "1²", "nan", "NaN", "-nan", "inf", "-inf", "+inf", "Infinity", "-Infinity", " nan", "inf ",
           "1e308", "1e309", "-1e309", "5e-324", "1e-400", "-1e-400", "\U0001F600", "é", "a" * 200, "<x>", "&amp;", "None", "True"]
 
 BOUNDS = []
@@ -324,7 +324,7 @@ BOUNDS += ["180", "-180", "90", "-90", "180.0", "-180.0", "90.0", "-90.0", "180.
            "360", "-360", "1000", "-0.0", "0.0", "-0.0001", "0.0001", "-5e-324", "4.9e-324", "180.00000000000000001",
            "-0.00000000000000000000000000001", "1e2", "1.8e+2", "+180", "+90", "+181", "0180", "00090"]
 
-TIMES = ["12:30:00", "00:00:00", "23:59:59", "23:59:59.999", "23:59:59.999999", "08:15", "13:45:30+02:00", "13:45:30-11:30",
+TIMES = ["12:30:00Z", "12:30Z", "08:15:30.250000Z", "12:30:00", "00:00:00", "23:59:59", "23:59:59.999", "23:59:59.999999", "08:15", "13:45:30+02:00", "13:45:30-11:30",
          "13:45+00:00", "12:30:00.5", "12:30:00.12", "12:30:00.1234567", "24:00:00", "24:00", "25:00:00", "12:60:00", "12:30:60",
          "12:30:61", "12:30:00:00", "12", "1230", "123000", "T12:30:00", "12:30:00Z", "12:30:00z", "12:30:00+02", "12:30:00+0200",
          "12:30:00+24:00", "12:30:00+02:60", "12:30:00,5", "1:30:00", "12:3:00", "noon", "12:30 PM", "12.30.00", "12-30-00",
